@@ -9,16 +9,19 @@ from .accmodel import Model as AccModel, atom_matcher
 MALFORMED = ['(', 'a.b.c', '[x', 'x ! y ! z', 'wl_a@5', '"', 'a(b)c']
 
 
-def gen_matcher_text(d, g, simple_ok=True):
+def gen_matcher_text(d, g, simple_ok=True, want_ast=False):
     if simple_ok and d.chance(0.15):
-        return d.choice(['*', 'wl_*', '.new', '.destroyed', 'wl_display', 'wl_registry.bind', '2', '3a', 'A:', 'B:', '(nil)', '.delete_id'])
-    return rm.render(g.top(), rm.Plain())
+        t = d.choice(['*', 'wl_*', '.new', '.destroyed', 'wl_display', 'wl_registry.bind', '2', '3a', 'A:', 'B:', '(nil)', '.delete_id'])
+        return (t, None) if want_ast else t
+    ast = g.top()
+    t = rm.render(ast, rm.Plain())
+    return (t, ast) if want_ast else t
 
 
-def gen_script(d, specs, dialect, weights=None, list_heavy=False, unresolved=True):
+def gen_script(d, specs, dialect, weights=None, list_heavy=False, unresolved=True, depth=1):
     """items: ['line', text] | ['cmd', text]"""
     V = rm.vocab(specs)
-    g = rm.Gen(d, V, 1)
+    g = rm.Gen(d, V, depth)
     items = []
     p_cmd = 0.35 if list_heavy else 0.3
     simple = ['wl_display', 'wl_registry', 'wl_callback', '.bind', '.sync', '.delete_id', '.new', '.destroyed', '2', '3', 'A:', 'B:'] + [
@@ -49,16 +52,19 @@ def gen_script(d, specs, dialect, weights=None, list_heavy=False, unresolved=Tru
             elif k == 'connection':
                 items.append(['cmd', d.choice(['connection ', 'c ', 'conn ']) + d.choice(['A', 'B', 'A', 'B', 'C', 'a', 'b', 'all', 'all', 'Z', 'AA'])])
             elif k == 'list':
-                mt = '' if d.chance(0.3) else (d.choice(MALFORMED) if d.chance(0.06) else gen_matcher_text(d, g))
+                ast = None
+                if d.chance(0.3): mt = ''
+                elif d.chance(0.06): mt = d.choice(MALFORMED)
+                else: mt, ast = gen_matcher_text(d, g, want_ast=True)
                 if last_acc and d.chance(0.3):
-                    mt = d.choice(last_acc)         # the very text given to an earlier filter command
+                    mt, ast = d.choice(last_acc), None         # the very text given to an earlier filter command
                 cap = d.choice(['', '', ' ~ 1', ' ~ 2', '~3', ' ~ 0', ' ~ 50', '~1', ' ~5', ' ~ x'])
                 if d.chance(0.3):
                     k = sum(1 for i in items if i[0] == 'line')      # recorded so far: caps at, just above and up to twice that
                     cap = ' ~ %d' % max(1, d.choice([k - 1, k, k + 1, k + 2, (3 * k) // 2, 2 * k - 1, 2 * k, 2 * k + 1]))
                     if d.chance(0.5):
-                        mt = d.choice(['', '*'])
-                items.append(['cmd', d.choice(['list ', 'l ', 'li ']) + mt + cap])
+                        mt, ast = d.choice(['', '*']), None
+                items.append(['cmd', d.choice(['list ', 'l ', 'li ']) + mt + cap] + ([None, dict(ast=ast)] if ast is not None else []))
             elif k == 'breakpoint':
                 if d.chance(0.6):
                     # breakpoints never influence what is displayed (shared state between the two matchers would)
